@@ -800,6 +800,38 @@ pub fn run(ctx: &Ctx, c06: bool) -> i32 {
     });
     total.merge(blocks);
   }
+  // radii taken from the float literals of the current sources (and 0.999 / 1.001 of them)
+  {
+    let (_, lit_floats) = source_literals();
+    let radii: Vec<f64> = lit_floats.iter().copied().filter(|&r| r > 1e-9 && r < PI).flat_map(|r| [r, r * 0.999, r * 1.001]).collect();
+    let lit = par_jobs(radii.len(), |k| {
+      let r = radii[k];
+      let mut part = Part::new();
+      let kstart = ref_start_depth(r).unwrap_or(0);
+      for &(lon, lat) in &[(1.0, 0.62), (0.3, 1.0), (4.0, -0.66), (0.0, 0.948)] {
+        for d in [3u8.min(kstart + 2), (kstart + 2).min(29)] {
+          let q = ConeQ { variant: 0, depth: d, delta: 0, lon, lat, r };
+          part.stratum("source-literal-radii", 1, 1);
+          if c06 {
+            if d <= 12 || r < 1e-3 {
+              if let Some(v) = check_c06(&q, &mut part) {
+                part.viol(v);
+              }
+            }
+          } else {
+            let verdict = if d <= 5 { check_c05(&q, listed_kf1, &mut part) } else { check_c05_deep_nb(&q, listed_kf1, 48, &mut part) };
+            match verdict {
+              Verdict::Ok => {}
+              Verdict::Known(kf, ex) => part.known(kf, ex),
+              Verdict::Bad(v) => part.viol(v),
+            }
+          }
+        }
+      }
+      part
+    });
+    total.merge(lit);
+  }
   // centres just outside an edge of the NARROWEST cells of the start depth k (exhaustive search,
   // c16::narrowest_cells), radii in and below the band of KF-1, coverage depth k and k + 1
   {
